@@ -25,7 +25,10 @@ def mc_family(family, tier, wd):
 def rand_record(rnd):
     sk = rnd.choice(['none', 'target', 'target', 'other'])
     tk = rnd.choice(['none', 'empty', 'target', 'target', 'other']) if sk != 'none' else 'none'
-    return dict(g=rnd.sample(GF, rnd.choice([0, 0, 1, 1, 2, 3])), sk=sk, s=rnd.sample(SF, rnd.choice([0, 1, 1, 2])) if sk != 'none' else [],
+    if sk == 'target' and rnd.random() < 0.4:
+        sk = 'both'
+    return dict(os=rnd.sample(SF, rnd.choice([1, 2, 6])) if sk == 'both' else [], ot=rnd.sample(TF, rnd.choice([0, 1, 4])) if sk == 'both' else [],
+                g=rnd.sample(GF, rnd.choice([0, 0, 1, 1, 2, 3])), sk=sk, s=rnd.sample(SF, rnd.choice([0, 1, 1, 2])) if sk != 'none' else [],
                 tk=tk, t=rnd.sample(TF, rnd.choice([0, 1, 1, 2])) if tk in ('target', 'other') else [])
 
 
@@ -45,7 +48,10 @@ def build_scenarios(families, tier, wd, seed):
             recs = [dict(g=[f], sk='none', s=[], tk='none', t=[]) for f in GF] + \
                    [dict(g=[], sk='target', s=[f], tk='none', t=[]) for f in SF] + \
                    [dict(g=[], sk='target', s=[], tk='target', t=[f]) for f in TF] + \
-                   [dict(g=[], sk='target', s=[], tk='empty', t=[]), dict(g=[], sk='other', s=SF, tk='other', t=TF)]
+                   [dict(g=[], sk='target', s=[], tk='empty', t=[]), dict(g=[], sk='other', s=SF, tk='other', t=TF)] + \
+                   [dict(g=[], sk='both', s=['read_stream'], tk='none', t=[], os=SF, ot=TF),
+                    dict(g=[], sk='both', s=['read_stream', 'read_topics'], tk='target', t=['read_topic'], os=SF, ot=TF),
+                    dict(g=['read_streams', 'read_topics'], sk='other', s=SF, tk='other', t=TF)]
         scenarios.append(dict(id=f'ops-{k}', family='ops', kind='ops', records=recs, seed=rnd.randrange(1 << 30), steps=[1, 2, 3], cfg=dict(cache='off')))
     return scenarios, {'permissions': dict(table_shards=nsh, op_binding_scenarios=nops)}
 
@@ -60,7 +66,7 @@ def attribute(prop, scn, events_bad):
 
 def nontrivial(prop, scn, evs):
     if scn['kind'] == 'table':
-        return any(e['ev'] == 'rule' and e['rec']['sk'] != 'none' for e in evs)
+        return any(e['ev'] == 'rule' and e['rec']['sk'] == 'both' for e in evs)
     if scn['kind'] == 'ops':
         return any(e['ev'] == 'op' and e['res'] == 'ok' and e['op'] not in ('ping', 'get_me', 'get_personal_access_tokens') for e in evs)
     return any(e['ev'] == 'unauth' and e['res'] != 'ok' for e in evs)
